@@ -13,6 +13,7 @@ MCNodeRecs ==
     N("p1A1", "p1A", "entry", "p1", "A"), N("p1A2", "p1A", "entry", "p1", "A") }
 
 MCDecl == [p1 |-> {"A", "B", "D", "E"}, p2 |-> {"D", "E"}, px |-> {"D"}, p1s |-> {"D", "E"}]
+MCTagged == [p1 |-> << >>, p2 |-> << >>, px |-> << >>, p1s |-> << >>]
 MCSubs == [p1 |-> {"p1s", "px"}, p2 |-> {}, px |-> {}]
 MCRecursive == {"p1"}
 MCSubSeq == [p1 |-> <<"p1", "p1s", "px">>]           \* `go list p1/...` lists p1 itself, too
